@@ -25,7 +25,7 @@ template <class L> class LabeledFamily : public IAlgoFamily {
     std::string name() const override { return std::string("Labeled*Graph<") + Codec<L>::name + ">"; }
     bool handles(const std::string &k) const override {
         return k == "reverse" || k == "todirected" || k == "toundirected" || k == "edgelist" || k == "subgraphD" ||
-               k == "subgraphU" || k == "search" || k == "reject";
+               k == "subgraphU" || k == "search" || k == "reject" || k == "iter";
     }
 
     CaseResult run(const json &c, unsigned seed) override {
@@ -58,6 +58,12 @@ template <class L> class LabeledFamily : public IAlgoFamily {
         }
         if (k == "edgelist")
             edgeList(c, r);
+        if (k == "iter") {
+            if (c.at("dir").get<bool>())
+                iterate<DG>(c, r);
+            else
+                iterate<UG>(c, r);
+        }
         return r;
     }
 
@@ -116,6 +122,85 @@ template <class L> class LabeledFamily : public IAlgoFamily {
                 r.fail("constructor from std::multiset differs from the same sequence in a std::vector");
             if (!(DG(st) == DG(vst)) || !(UG(st) == UG(vst)) || encOf(UG(st)) != encOf(UG(vst)))
                 r.fail("constructor from std::set differs from the same sequence in a std::vector");
+        }
+    }
+
+    // C08: the real edge traversal against the sequence EdgeIter.tla yields for the same shape
+    template <class G> void iterate(const json &c, CaseResult &r) {
+        const size_t n = c.at("n").get<size_t>();
+        G g(n);
+        if (GInfo<G>::directed) {
+            for (VertexIndex i = 0; i < n; ++i)
+                for (auto &j : c.at("lists")[i])
+                    g.addEdge(i, j.get<VertexIndex>());
+        } else
+            for (auto &p : c.at("ins"))
+                g.addEdge(p[0].get<VertexIndex>(), p[1].get<VertexIndex>());
+        bool sameShape = true;
+        for (VertexIndex i = 0; i < n; ++i) {
+            std::vector<VertexIndex> real(g.getOutNeighbours(i).begin(), g.getOutNeighbours(i).end());
+            if (real != c.at("lists")[i].get<std::vector<VertexIndex>>())
+                sameShape = false;
+        }
+        std::vector<std::pair<VertexIndex, VertexIndex>> spec;
+        for (auto &e : c.at("yielded"))
+            spec.push_back({e[0].get<VertexIndex>(), e[1].get<VertexIndex>()});
+        std::vector<std::pair<VertexIndex, VertexIndex>> s1, s2, s3, s4;
+        try {
+            for (auto e : g.edges())
+                s1.push_back(e);
+            auto ed = g.edges();
+            for (auto it = ed.begin(); it != ed.end(); ++it)
+                s2.push_back(*it);
+            for (auto it = ed.begin(); it != ed.end();) {
+                auto old = it++;
+                s3.push_back(*old);
+            }
+            for (auto e : g.edges())
+                s4.push_back(e);
+            if ((g.edges().begin() == g.edges().end()) != s1.empty())
+                return r.fail("begin()==end() is not 'no edge'");
+            if ((g.edges().begin() != g.edges().end()) == s1.empty())
+                return r.fail("begin()!=end() is not the negation of ==");
+        } catch (const std::exception &e) {
+            return r.fail(std::string("edge traversal threw: ") + e.what());
+        }
+        if (c.at("oor").get<bool>())
+            return r.fail("the specification's cursor leaves the vertex range on this shape");
+        if (s1 != s2 || s1 != s3 || s1 != s4)
+            return r.fail("range-for, pre-increment, post-increment and repeated traversals disagree");
+        if (sameShape) {
+            if (s1 != spec)
+                return r.fail("edges() yields " + json(s1).dump() + ", the cursor specification " + json(spec).dump());
+        } else {
+            auto a = s1, b = spec;
+            std::sort(a.begin(), a.end());
+            std::sort(b.begin(), b.end());
+            if (a != b)
+                return r.fail("edges() yields (as a bag) " + json(a).dump() + ", expected " + json(b).dump());
+        }
+        // operations defined by enumerating edges are defined on every shape
+        try {
+            if constexpr (GInfo<G>::directed) {
+                (void)g.getInDegrees();
+                (void)g.getAdjacencyMatrix();
+                DG rv = g.getReversedGraph();
+                if (rv.getEdgeNumber() != s1.size())
+                    return r.fail("getReversedGraph lost edges");
+            } else {
+                DG d = g.getDirectedGraph();
+                (void)d;
+            }
+            size_t k = 0;
+            for (VertexIndex v : g) {
+                if (v != k)
+                    return r.fail("vertex iteration out of order");
+                ++k;
+            }
+            if (k != n)
+                return r.fail("vertex iteration count");
+        } catch (const std::exception &e) {
+            return r.fail(std::string("an edge-enumerating operation threw: ") + e.what());
         }
     }
 
